@@ -40,7 +40,20 @@ def handle(req):
 
             def go():
                 lr = LineageRunner(req["sql"], dialect=req.get("dialect", "ansi"), **kw)
-                out = _dump(lr)
+                try:
+                    out = _dump(lr)
+                except Exception as e:
+                    from sqllineage.exceptions import SQLLineageException
+
+                    if req.get("again") and isinstance(e, SQLLineageException):
+                        # the same runner object asked again after a failure: a non-library exception here propagates
+                        for acc in (lambda: lr.source_tables, lambda: lr.get_column_lineage(), lambda: lr.to_cytoscape(),
+                                    lambda: str(lr), lambda: lr.statements()):
+                            try:
+                                acc()
+                            except SQLLineageException:
+                                pass
+                    raise
                 if req.get("cyto"):
                     out["cyto_table"] = lr.to_cytoscape()
                     out["cyto_column"] = lr.to_cytoscape("column")
